@@ -276,7 +276,8 @@ class Analysis:
         st.update({f"orc_{k}": v for k, v in orc.stats.items()})
         for cls, i, s, e in pyd_fail:
             mech, msg = explain_pydantic(e, s, structural_ok=not errs)
-            self.w.append(W("C01", mech, f"{cls.__name__}.parse_obj(sample {i}) failed: {msg}", sample=i))
+            for mname in (mech if isinstance(mech, list) else [mech]):
+                self.w.append(W("C01", mname, f"{cls.__name__}.parse_obj(sample {i}) failed: {msg}", sample=i))
         if any(w["property"] == "C01" for w in self.w):
             self.blocked["C02"] = "acceptance failed on this execution"
             return
@@ -414,7 +415,8 @@ def explain_pydantic(e, sample, structural_ok):
                     if t == f"value_error.{actual}" and oracle.p_accepts(driver.STR_CLASSES[pname], v)[0]:
                         causes.add(f"narrower-than-detector:{actual}")
     if causes:
-        return "pydantic-quirk:" + ",".join(sorted(causes)), msg
+        # one mechanism per recognised cause (a sample may hit several known quirks at once)
+        return ["pydantic-quirk:" + c for c in sorted(causes)], msg
     return "pydantic-parse-rejected:" + ",".join(kinds)[:60], msg
 
 
